@@ -168,7 +168,10 @@ let handle kind c =
     let _nfired = next_int c in
     let log = next_list c next in
     let same_day = next_bool c in
-    let where = Printf.sprintf "plan-%s-%s" variant (String.concat "," (List.map (fun (i, k) -> Printf.sprintf "%d:%s" i (match k with KOk -> "ok" | KErr -> "err" | KShort -> "short")) steps)) in
+    let mode = (match next c with "nomode" -> None | "mode" -> Some (next_bytes c) | t -> failwith ("mode tag " ^ t)) in
+    let where = Printf.sprintf "plan-%s-mode[%s]-%s" variant
+        (match mode with None -> "absent" | Some b -> let t = string_of_bytes b in String.escaped (if String.length t > 20 then String.sub t 0 20 ^ "..." else t))
+        (String.concat "," (List.map (fun (i, k) -> Printf.sprintf "%d:%s" i (match k with KOk -> "ok" | KErr -> "err" | KShort -> "short")) steps)) in
     (match status with
      | "hang" -> prop "hang" (where ^ ": Open/Add did not return within the step budget")
      | "panic" -> prop "panic" (where ^ ": a panic escaped from Open/Add")
@@ -185,7 +188,7 @@ let handle kind c =
          | "empty" -> Some [n_of_int 32; n_of_int 10]
          | _ -> Some [n_of_int 50; n_of_int 10] in
        let file = match cf with "absent" -> CAbsent | "short" -> CShort | "valid" -> CValid | "badhdr" -> CBadHdr | t -> failwith ("cfile " ^ t) in
-       let (((o, i), ok), n) = scenario p (n_of_int 51) same_day { fs_week = week; fs_file = file } in
+       let (((o, i), ok), n) = scenario p (n_of_int 51) same_day mode { fs_week = week; fs_file = file } in
        let m_parked = (o <> Mapped) in
        let show_m = Printf.sprintf "open-calls=%d parked=%b calls=%d ext-ok=%b" (int_of_nat i) m_parked (int_of_nat n) ok in
        let show_i = Printf.sprintf "open-calls=%d parked=%b calls=%d log=%s" open_calls parked calls (String.concat "," log) in
